@@ -1205,6 +1205,125 @@ theorem namesPure_names (c : Cls) (enc : Enc) (hdr : Bytes) (img : Bytes) (k : N
         unfold nameOf
         rw [hcong, hoff, ha, hb]
 
+/-! ### the name of a zeroed section
+
+A zeroed section has name offset 0, so its name is the string at offset 0 of the name table: empty
+when the table has no data in the prefix run, and otherwise the string up to the first NUL of the
+table's bytes — which are the complete run's (`SecRel.both`).  It is empty exactly when the table's
+first byte is NUL (`NulFirst`, a condition on the complete run: part of well-formedness of an image). -/
+
+/-- the data of `T` (if resident and non-empty) start with a NUL byte -/
+def NulFirst (T : SecBuf) : Prop := ∀ d, T.data = some d → 0 < T.size.toNat → d.head? = some 0
+
+instance (T : SecBuf) : Decidable (NulFirst T) :=
+  decidable_of_iff (T.data.isSome = true → 0 < T.size.toNat → (T.data.getD []).head? = some 0)
+    ⟨fun h d hd hs => by have := h (by rw [hd]; rfl) hs; rwa [hd] at this,
+     fun h hd hs => by
+      cases hdd : T.data with
+      | none => rw [hdd] at hd; cases hd
+      | some d => exact h d hdd hs⟩
+
+theorem cstrAt_zero_of_nul (site : String) (d : Bytes) (size : Nat) (hs : 0 < size) (h0 : d.head? = some 0) :
+    cstrAt site d size 0 = .ok (some []) := by
+  unfold cstrAt
+  rw [if_neg (by omega)]
+  cases d with
+  | nil => cases h0
+  | cons x rest =>
+    simp only [List.head?_cons, Option.some.injEq] at h0
+    subst h0
+    have hsl : slice ((0 : UInt8) :: rest) 0 (size - 0) = 0 :: rest.take (size - 1) := by
+      unfold slice
+      rw [List.drop_zero]
+      obtain ⟨n, rfl⟩ : ∃ n, size = n + 1 := ⟨size - 1, by omega⟩
+      simp
+    rw [hsl]
+    simp [List.idxOf?, List.findIdx?_cons]
+    rfl
+
+/-- the names of zeroed sections after the name resolution step of the prefix run -/
+theorem namesPure_zero_names (c : Cls) (enc : Enc) (hdr : Bytes) (img : Bytes) (k : Nat) (kind : StreamKind)
+    (hlen : img.length < 9223372036854775808) (lsp lsf : LoadSt) (secsp secsf : List SecBuf)
+    (hs : Sim2 img k kind lsp lsf) (hrel : ListRel (SecRelI lsp.st.fail) secsp secsf)
+    (hip : ∀ b ∈ secsp, LoadedSec [] b (img.take k)) (hif : ∀ b ∈ secsf, LoadedSec [] b img)
+    (hnp : ∀ b ∈ secsp, b.name = [])
+    (hnul : ∀ T, (Hdr.e_shstrndx c enc hdr).toNat ≠ 0 →
+      (namesPure c enc [] hdr lsf secsf).2[(Hdr.e_shstrndx c enc hdr).toNat]? = some T → NulFirst T) :
+    ∀ b ∈ (namesPure c enc [] hdr lsp secsp).2, SecZero b → b.name = [] := by
+  have hlk := take_length_le img k
+  unfold namesPure at hnul ⊢
+  split
+  · intro b hb _; exact hnp b hb
+  · rename_i hndx
+    rw [if_neg hndx] at hnul
+    rcases hrel.getElem? (Hdr.e_shstrndx c enc hdr).toNat with ⟨e1, e2⟩ | ⟨bp, bf, e1, e2, hr⟩
+    · rw [e1]; intro b hb _; exact hnp b hb
+    · rw [e1]
+      rw [e2] at hnul
+      dsimp only at hnul ⊢
+      have ip := hip bp (List.mem_of_getElem? e1)
+      have jf := hif bf (List.mem_of_getElem? e2)
+      obtain ⟨pP, -⟩ := secGetData_pure c lsp bp (img.take k) hs.p.data ip (by omega)
+      obtain ⟨pF, -⟩ := secGetData_pure c lsf bf img hs.f.data jf hlen
+      have rel1 := getDataPure_rel hr.1 ip jf hlen
+      rw [← pP, ← pF] at rel1
+      -- the complete run's table, as it ends up in the list
+      have hlt : (Hdr.e_shstrndx c enc hdr).toNat < secsf.length := by
+        rcases Nat.lt_or_ge (Hdr.e_shstrndx c enc hdr).toNat secsf.length with h | h
+        · exact h
+        · rw [List.getElem?_eq_none h] at e2; cases e2
+      have hne0 : (Hdr.e_shstrndx c enc hdr).toNat ≠ 0 := by
+        intro e0
+        apply hndx
+        rw [beq_iff_eq]
+        exact BitVec.eq_of_toNat_eq (by rw [e0]; rfl)
+      have hT := hnul (withName (secGetData c [] lsf bf).2 (secGetData c [] lsf bf).2) hne0 (by
+        rw [List.getElem?_map, List.getElem?_set_self hlt]; rfl)
+      have hTd : NulFirst (secGetData c [] lsf bf).2 := by
+        intro d hd hsz
+        have sh := withName_sameHdr (secGetData c [] lsf bf).2 (secGetData c [] lsf bf).2
+        have hdat : (withName (secGetData c [] lsf bf).2 (secGetData c [] lsf bf).2).data =
+            (secGetData c [] lsf bf).2.data := by
+          unfold withName; split <;> rfl
+        exact hT d (by rw [hdat]; exact hd) (by rw [sh.size]; exact hsz)
+      intro b hb hz
+      rw [List.mem_map] at hb
+      obtain ⟨a, ha, rfl⟩ := hb
+      have han : a.name = [] := by
+        rcases List.mem_or_eq_of_mem_set ha with h | h
+        · exact hnp a h
+        · rw [h]; exact (secGetData_name ..).trans (hnp bp (List.mem_of_getElem? e1))
+      have hoff : a.nameOff = 0 := by
+        have := hz.nameOff
+        rwa [(withName_sameHdr _ a).nameOff] at this
+      rw [withName_eq]
+      show nameOf _ a = []
+      unfold nameOf
+      rw [hoff]
+      cases hd : (secGetData c [] lsp bp).2.data with
+      | none => rw [getString_none_data _ _ hd]; exact han
+      | some d =>
+        cases rel1 with
+        | zero _ hz' => rw [hz'.data] at hd; cases hd
+        | never _ hdn _ => rw [hdn] at hd; cases hd
+        | both hsf hdd _ _ _ =>
+          unfold getString
+          rw [hd]
+          dsimp only
+          by_cases hsz : 0 < (secGetData c [] lsp bp).2.size.toNat
+          · have h0 : d.head? = some 0 := hTd d (by rw [← hdd]; exact hd) (by rw [← hsf.size]; exact hsz)
+            have hc := cstrAt_zero_of_nul "get_string/memchr" d (secGetData c [] lsp bp).2.size.toNat hsz h0
+            show (match cstrAt "get_string/memchr" d (secGetData c [] lsp bp).2.size.toNat (0 : BitVec 32).toNat with
+              | .ok (some s) => s | _ => a.name) = []
+            rw [show (0 : BitVec 32).toNat = 0 from rfl, hc]
+          · have : cstrAt "get_string/memchr" d (secGetData c [] lsp bp).2.size.toNat (0 : BitVec 32).toNat = .ok none := by
+              unfold cstrAt
+              rw [if_pos (by show (0 : BitVec 32).toNat ≥ _; rw [show (0 : BitVec 32).toNat = 0 from rfl]; omega)]
+              rfl
+            show (match cstrAt "get_string/memchr" d (secGetData c [] lsp bp).2.size.toNat (0 : BitVec 32).toNat with
+              | .ok (some s) => s | _ => a.name) = []
+            rw [this]; exact han
+
 /-! ### the phases of `load` in both runs -/
 
 /-- what the two loads have in common when the load of the prefix succeeds -/
@@ -1254,12 +1373,48 @@ theorem loadSegsPhase_sim (o : Obj) (c : Cls) (enc : Enc) (hdr : Bytes) (isLazy 
       rw [h0]; rfl
     · exact h0
 
+theorem loadSegsPhase_obj {o : Obj} {c : Cls} {enc : Enc} {hdr : Bytes} {isLazy : Bool} {ls : LoadSt}
+    {secs : List SecBuf} {r : LoadRes} (h : loadSegsPhase o c enc hdr isLazy ls secs = .ok r) :
+    r.obj.secs = secs ∧ r.obj.cls = o.cls ∧ r.obj.enc = o.enc ∧ r.obj.hdr = o.hdr := by
+  unfold loadSegsPhase at h
+  split at h <;> (cases h; exact ⟨rfl, rfl, rfl, rfl⟩)
+
+theorem loadNamesK_exists {c : Cls} {enc : Enc} {tr : List Trans} {hdr : Bytes} {ls : LoadSt} {secs : List SecBuf}
+    {k : LoadSt × List SecBuf → M LoadRes} {r : LoadRes} (h : loadNamesK c enc tr hdr ls secs k = .ok r) :
+    ∃ p, k p = .ok r := by
+  unfold loadNamesK at h
+  split at h
+  · exact ⟨_, h⟩
+  · split at h
+    · exact ⟨_, h⟩
+    · cases hr : resolveNames (secGetData c tr ls ‹SecBuf›).2
+          (secs.set (Hdr.e_shstrndx c enc hdr).toNat (secGetData c tr ls ‹SecBuf›).2) with
+      | error e => rw [hr] at h; cases h
+      | ok v => rw [hr] at h; exact ⟨_, h⟩
+
+theorem loadAfterHdr_obj {o : Obj} {c : Cls} {enc : Enc} {hdr : Bytes} {isLazy : Bool} {st : IStream} {r : LoadRes}
+    (h : loadAfterHdr o c enc hdr isLazy st = .ok r) :
+    r.obj.cls = o.cls ∧ r.obj.enc = o.enc ∧ r.obj.hdr = o.hdr := by
+  unfold loadAfterHdr at h
+  split at h
+  · exact (loadSegsPhase_obj h).2
+  · obtain ⟨p, hp⟩ := loadNamesK_exists h
+    exact (loadSegsPhase_obj hp).2
+
+/-- the section-name table of the complete run (if resident and non-empty) starts with NUL -/
+def NameTableNulFirst (rf : LoadRes) : Prop :=
+  ∀ hdr T, rf.obj.hdr = some hdr → (Hdr.e_shstrndx rf.obj.cls rf.obj.enc hdr).toNat ≠ 0 →
+    rf.obj.secs[(Hdr.e_shstrndx rf.obj.cls rf.obj.enc hdr).toNat]? = some T → NulFirst T
+
 theorem loadAfterHdr_sim (o : Obj) (c : Cls) (enc : Enc) (hdr : Bytes) (isLazy : Bool) (htr : o.trans = [])
     (img : Bytes) (k : Nat) (hlen : img.length < 9223372036854775808)
     (sp sf : IStream) (hs : Sim img k sp sf) (rp rf : LoadRes)
     (hp : loadAfterHdr o c enc hdr isLazy sp = .ok rp)
     (hf : loadAfterHdr o c enc hdr isLazy sf = .ok rf) (hok : rp.ok = true) :
-    ∃ f, PrefixSound f rp rf := by
+    ∃ f, PrefixSound f rp rf ∧
+      ((∀ T, (Hdr.e_shstrndx c enc hdr).toNat ≠ 0 →
+          rf.obj.secs[(Hdr.e_shstrndx c enc hdr).toNat]? = some T → NulFirst T) →
+        ∀ b ∈ rp.obj.secs, SecZero b → b.name = []) := by
   unfold loadAfterHdr at hp hf
   rw [htr] at hp hf
   have h0 : Sim2 img k sf.kind { st := sp } { st := sf } :=
@@ -1270,7 +1425,10 @@ theorem loadAfterHdr_sim (o : Obj) (c : Cls) (enc : Enc) (hdr : Bytes) (isLazy :
     have e1 : loadSecs0 c enc [] hdr isLazy sp = ({ st := sp }, []) := by unfold loadSecs0; rw [if_pos hbad]
     have e2 : loadSecs0 c enc [] hdr isLazy sf = ({ st := sf }, []) := by unfold loadSecs0; rw [if_pos hbad]
     rw [e1] at hp; rw [e2] at hf
-    exact ⟨_, loadSegsPhase_sim o c enc hdr isLazy htr img k sf.kind hlen _ _ [] [] h0 .nil .nil rp rf hp hf hok⟩
+    refine ⟨_, loadSegsPhase_sim o c enc hdr isLazy htr img k sf.kind hlen _ _ [] [] h0 .nil .nil rp rf hp hf hok, ?_⟩
+    intro _ b hb
+    rw [(loadSegsPhase_obj hp).1] at hb
+    cases hb
   · rw [if_neg hbad] at hp hf
     have e1 : loadSecs0 c enc [] hdr isLazy sp = loadSectionsLoop c enc [] isLazy (Hdr.e_shoff c enc hdr).toInt
         (Hdr.e_shentsize c enc hdr).toNat (Hdr.e_shnum c enc hdr).toNat 0 { st := sp } [] := by
@@ -1292,7 +1450,11 @@ theorem loadAfterHdr_sim (o : Obj) (c : Cls) (enc : Enc) (hdr : Bytes) (isLazy :
     have m2 : ∀ b ∈ (loadSecs0 c enc [] hdr isLazy sf).2, b.name = [] := by
       rw [e2]; exact loadSectionsLoop_names c enc [] isLazy _ _ _ 0 _ [] (fun b hb => by cases hb)
     have n3 := namesPure_names c enc hdr img k sf.kind hlen _ _ _ _ l1 l2 p2 q2 m1 m2
-    exact ⟨_, loadSegsPhase_sim o c enc hdr isLazy htr img k sf.kind hlen _ _ _ _ n1 n2 n3 rp rf hp hf hok⟩
+    refine ⟨_, loadSegsPhase_sim o c enc hdr isLazy htr img k sf.kind hlen _ _ _ _ n1 n2 n3 rp rf hp hf hok, ?_⟩
+    intro hnul
+    rw [(loadSegsPhase_obj hp).1]
+    rw [(loadSegsPhase_obj hf).1] at hnul
+    exact namesPure_zero_names c enc hdr img k sf.kind hlen _ _ _ _ l1 l2 p2 q2 m1 hnul
 
 /-- **prefix_sound**: for EVERY byte string `img` shorter than 2^63 (well-formed or not) and every
     prefix length `k`: if loading the prefix succeeds (`ok = true`), then loading the complete
@@ -1300,11 +1462,11 @@ theorem loadAfterHdr_sim (o : Obj) (c : Cls) (enc : Enc) (hdr : Bytes) (isLazy :
     fields, data pointer contents, member lists), and section by section: the prefix run's
     section is the zeroed one without data (possible only if there are no segments), or it has
     the same ten header fields and its data is absent or the same bytes. -/
-theorem prefix_sound (o : Obj) (htr : o.trans = []) (img : Bytes) (k : Nat) (kind : StreamKind)
+theorem prefix_sound_core (o : Obj) (htr : o.trans = []) (img : Bytes) (k : Nat) (kind : StreamKind)
     (isLazy : Bool) (hlen : img.length < 9223372036854775808) (rp rf : LoadRes)
     (hp : load o { data := img.take k, kind := kind } isLazy = .ok rp)
     (hf : load o { data := img, kind := kind } isLazy = .ok rf) (hok : rp.ok = true) :
-    ∃ f, PrefixSound f rp rf := by
+    ∃ f, PrefixSound f rp rf ∧ (NameTableNulFirst rf → ∀ b ∈ rp.obj.secs, SecZero b → b.name = []) := by
   rw [load_eq] at hp hf
   dsimp only at hp hf
   rw [htr] at hp hf
@@ -1333,11 +1495,42 @@ theorem prefix_sound (o : Obj) (htr : o.trans = []) (img : Bytes) (k : Nat) (kin
         · obtain ⟨b1, b2, -, -, -, -, -⟩ := f2 hg2
           rw [if_neg (by rw [hg2]; simp)] at hp
           rw [if_neg (by rw [b1]; simp), b2] at hf
-          exact loadAfterHdr_sim _ c enc _ isLazy rfl img k hlen _ _ s2 rp rf hp hf hok
+          obtain ⟨f, hps, hzn⟩ := loadAfterHdr_sim _ c enc _ isLazy rfl img k hlen _ _ s2 rp rf hp hf hok
+          refine ⟨f, hps, fun hnul => hzn ?_⟩
+          obtain ⟨oc, oe, oh⟩ := loadAfterHdr_obj hf
+          intro T hne hT
+          refine hnul _ T oh ?_ ?_
+          · rw [oc, oe]; exact hne
+          · rw [oc, oe]; exact hT
         · rw [if_pos (by simpa using hg2)] at hp
           exact (hfailRes _ _ hp).elim
   · rw [if_pos (by simpa using hg1)] at hp
     exact (hfailRes _ _ hp).elim
+
+theorem prefix_sound (o : Obj) (htr : o.trans = []) (img : Bytes) (k : Nat) (kind : StreamKind)
+    (isLazy : Bool) (hlen : img.length < 9223372036854775808) (rp rf : LoadRes)
+    (hp : load o { data := img.take k, kind := kind } isLazy = .ok rp)
+    (hf : load o { data := img, kind := kind } isLazy = .ok rf) (hok : rp.ok = true) :
+    ∃ f, PrefixSound f rp rf := by
+  obtain ⟨f, h, _⟩ := prefix_sound_core o htr img k kind isLazy hlen rp rf hp hf hok
+  exact ⟨f, h⟩
+
+/-- **prefix_sound_zero_name** (closes the name gap): if the section-name table of the complete run
+    starts with a NUL byte (`NameTableNulFirst`: a decidable condition on the complete load; for a
+    well-formed image it is the condition "the first byte of the section-name string table is 0" on
+    the image — `ElfioVerif.Compose.prefix_sound_names`), every *zeroed* section of the prefix run has
+    the empty name.  Together with `prefix_sound_section` (sections with an identical header: the name
+    is empty or the same string): the name of every section of the prefix run is empty or the name the
+    complete file gives it. -/
+theorem prefix_sound_zero_name (o : Obj) (htr : o.trans = []) (img : Bytes) (k : Nat) (kind : StreamKind)
+    (isLazy : Bool) (hlen : img.length < 9223372036854775808) (rp rf : LoadRes)
+    (hp : load o { data := img.take k, kind := kind } isLazy = .ok rp)
+    (hf : load o { data := img, kind := kind } isLazy = .ok rf) (hok : rp.ok = true)
+    (hnul : NameTableNulFirst rf) :
+    ∀ (i : Nat) (bp : SecBuf), rp.obj.secs[i]? = some bp → SecZero bp → bp.name = [] := by
+  obtain ⟨f, _, h⟩ := prefix_sound_core o htr img k kind isLazy hlen rp rf hp hf hok
+  intro i bp hi hz
+  exact h hnul bp (List.mem_of_getElem? hi) hz
 
 /-- `prefix_sound`, section by section: section `i` of the prefix run is matched by section `i` of
     the complete run; its header is all-zero or identical, its data pointer null or the same bytes -/
@@ -1413,5 +1606,37 @@ example :
 /- `read_prefix` has instances: reading 64 bytes at 0 from the 150-byte prefix is complete -/
 set_option maxRecDepth 100000 in
 example : ((({ data := img208b.take 150 } : IStream).read 64).1.gcount = 64) := by decide
+
+/-! ### non-vacuity of `prefix_sound_zero_name` : a zeroed section next to a resident name table -/
+
+instance (rf : LoadRes) : Decidable (NameTableNulFirst rf) :=
+  decidable_of_iff (∀ hdr ∈ rf.obj.hdr, (Hdr.e_shstrndx rf.obj.cls rf.obj.enc hdr).toNat ≠ 0 →
+      ∀ T ∈ rf.obj.secs[(Hdr.e_shstrndx rf.obj.cls rf.obj.enc hdr).toNat]?, NulFirst T)
+    ⟨fun h hdr T hh hne hT => h hdr hh hne T hT, fun h hdr hh hne T hT => h hdr T hh hne hT⟩
+
+/-- a 272-byte ELF64/LSB image whose section header table comes last: header, the string table
+    `\0.shstrtab\0` at 64, three section headers at 80 (null section, string table, a PROGBITS section) -/
+def img272 : Bytes := [
+   127, 69, 76, 70, 2, 1, 1, 0, 0, 0, 0, 0, 0, 0, 0, 0, 1, 0, 62, 0, 1, 0, 0, 0, 0, 0, 0, 0, 0, 0, 0, 0,
+   0, 0, 0, 0, 0, 0, 0, 0, 80, 0, 0, 0, 0, 0, 0, 0, 0, 0, 0, 0, 64, 0, 56, 0, 0, 0, 64, 0, 3, 0, 1, 0,
+   0, 46, 115, 104, 115, 116, 114, 116, 97, 98, 0, 0, 0, 0, 0, 0, 0, 0, 0, 0, 0, 0, 0, 0, 0, 0, 0, 0, 0, 0, 0, 0,
+   0, 0, 0, 0, 0, 0, 0, 0, 0, 0, 0, 0, 0, 0, 0, 0, 0, 0, 0, 0, 0, 0, 0, 0, 0, 0, 0, 0, 0, 0, 0, 0,
+   0, 0, 0, 0, 0, 0, 0, 0, 0, 0, 0, 0, 0, 0, 0, 0, 1, 0, 0, 0, 3, 0, 0, 0, 0, 0, 0, 0, 0, 0, 0, 0,
+   0, 0, 0, 0, 0, 0, 0, 0, 64, 0, 0, 0, 0, 0, 0, 0, 11, 0, 0, 0, 0, 0, 0, 0, 0, 0, 0, 0, 0, 0, 0, 0,
+   1, 0, 0, 0, 0, 0, 0, 0, 0, 0, 0, 0, 0, 0, 0, 0, 1, 0, 0, 0, 1, 0, 0, 0, 0, 0, 0, 0, 0, 0, 0, 0,
+   0, 0, 0, 0, 0, 0, 0, 0, 64, 0, 0, 0, 0, 0, 0, 0, 4, 0, 0, 0, 0, 0, 0, 0, 0, 0, 0, 0, 0, 0, 0, 0,
+   1, 0, 0, 0, 0, 0, 0, 0, 0, 0, 0, 0, 0, 0, 0, 0]
+
+/-- the prefix of length 250 cuts section header 2: the load succeeds, section 2 is zeroed, the name
+    table is resident — and (as the theorem says, the table starting with NUL) its name is empty; the
+    complete load names it ".shstrtab" (name offset 1) -/
+example :
+    (match load {} { data := img272 } false, load {} { data := img272.take 250 } false with
+     | .ok rf, .ok rp => decide (NameTableNulFirst rf) && rp.ok &&
+        (rp.obj.secs.map fun (b : SecBuf) => (b.stype.toNat, b.data.isSome, b.name.length)) ==
+          [(0, false, 0), (3, true, 9), (0, false, 0)] &&
+        (rf.obj.secs.map fun (b : SecBuf) => (b.stype.toNat, b.data.isSome, b.name.length)) ==
+          [(0, false, 0), (3, true, 9), (1, true, 9)]
+     | _, _ => false) = true := by decide +kernel
 
 end ElfioVerif.C17
